@@ -12,3 +12,4 @@ for P in C01 C02 C03 C04 C05 C06 C07 C08 C09 C10 C11 C12 C13 C20; do
 done
 git -C /repo checkout -- .
 echo "BENIGN $N:$res"
+git -C /verif checkout -- evidence 2>/dev/null   # evidence of a patched tree must not be left behind
